@@ -88,6 +88,9 @@ def nontrivial(g):
     return g.stats.get("res_ok", 0) + g.stats.get("res_fail", 0) > 0
 
 
+CRASH_IS_VIOLATION = {"C09"}
+
+
 def run_scenarios(ctx, prop, make_scenarios, proj, max_violations=3, want=None):
     """make_scenarios(drv) yields GenE objects (scenario + model observations + model-side statistics)"""
     drv = Driver()
@@ -128,6 +131,21 @@ def run_scenarios(ctx, prop, make_scenarios, proj, max_violations=3, want=None):
                                        "sig": {"clause": names[0]}})
                 continue
             d = first_divergence(iobs, g.obs, proj)
+            crashed = next((k for k, o in enumerate(iobs) if isinstance(o, dict) and not o.get("ok", True) and str(o.get("err", "")).startswith("other:")), None)
+            if prop in CRASH_IS_VIOLATION and crashed is not None and crashed < len(g.obs) and g.obs[crashed].get("ok") and len(ctx.violations) < max_violations:
+                # the real executor died with an exception that is none of its documented refusals, on a step the model carries out: for these
+                # properties ("every container ends in exactly one way, its result delivered in that tick") that is the violation itself
+                def crashes(c):
+                    try:
+                        return any(isinstance(o, dict) and str(o.get("err", "")).startswith("other:") for o in run_impl(c)[0])
+                    except NonLattice:
+                        return False
+                small = shrink(sc, crashes, deadline=time.time() + 40)
+                sobs, _ = run_impl(small)
+                err = next((o["err"] for o in sobs if isinstance(o, dict) and str(o.get("err", "")).startswith("other:")), iobs[crashed]["err"])
+                ctx.violations.append({"what": f"the executor raised an undocumented exception in the middle of a step the model carries out: {err}",
+                                       "layer": "E", "scenario": small, "observed": sobs[-1] if sobs else None, "sig": {"clause": "implementation-raised"}})
+                continue
             if d and not fails and len(ctx.unproved) < 3:
                 i, a, b = d
                 ctx.unproved.append({"kind": "correspondence", "component": "executor (layer E)", "projection": prop,
@@ -151,6 +169,10 @@ def replay_scenario(ctx, prop, rep, proj):
         if fails:
             ctx.violations.append({"what": f"check_{prop} fails on the implementation trace: {', '.join(clause_names(fails))}",
                                    "clauses": clause_names(fails), "layer": "E", "scenario": sc, "sig": {"clause": clause_names(fails)[0]}})
+            return
+        crash = next((o["err"] for o in iobs if isinstance(o, dict) and str(o.get("err", "")).startswith("other:")), None)
+        if prop in CRASH_IS_VIOLATION and crash:
+            ctx.violations.append({"what": f"the executor raised an undocumented exception: {crash}", "layer": "E", "scenario": sc, "sig": {"clause": "implementation-raised"}})
             return
         _, mobs = run_model(sc, im.order, drv)
         d = first_divergence(iobs, mobs, proj)
